@@ -1,7 +1,16 @@
-(* C20 model driver.  Input lines:
-     T name min max          add a table entry
-     N cv|bias name          declare an object name (cleared by "N clear")
-     D w1\x1fw2...           dispatch the word list; prints "error <kind>" or "run <function> <object_exists>" *)
+(* C20 model driver (stateful).  Words of a command line are separated by '\x1f'.  Input lines:
+     T name min max            add a table entry
+     S clear | S cv n | S bias n c1 c2 ..     set the model state (object sets)
+     P text\x1fdecl\x1fdecl..  register what a configuration text defines; decl = "cv n" | "bias n c1 c2 .."
+     P text\x1fnone            the text is not parseable (default for unregistered texts)
+     F name\x1ftext            contents of a configuration file
+     E w1\x1fw2...             one script call (exec): prints "<outcome> <bodyclass> | cvs | biases"
+     C text                    engine-side configuration (do_event EConfig)
+     X                         a step (do_event EStep)
+     W                         table_wf and state_wf
+     K name                    entry_class / is_pseudo / the witness command line of a table entry
+     G id:x:y:z id:x:y:z|...   groups ('|' between groups) of (atom id, contribution as three hex floats) in listing order:
+                               prints "ids i1 i2 .. | x y z x y z .." = build_ids and collect_groups (float addition, listing order) *)
 open Model
 
 let rec coq_string_of (s : Stdlib.String.t) (i : int) : Model.string =
@@ -12,45 +21,110 @@ let rec coq_string_of (s : Stdlib.String.t) (i : int) : Model.string =
     String (Ascii (b 0, b 1, b 2, b 3, b 4, b 5, b 6, b 7), coq_string_of s (i + 1))
 let cs s = coq_string_of s 0
 let rec ocaml_string_of (s : Model.string) : Stdlib.String.t =
-  match s with
-  | EmptyString -> ""
-  | String (Ascii (b0, b1, b2, b3, b4, b5, b6, b7), r) ->
-    let v = List.fold_left (fun acc (b, k) -> if b then acc lor (1 lsl k) else acc) 0
-        [(b0, 0); (b1, 1); (b2, 2); (b3, 3); (b4, 4); (b5, 5); (b6, 6); (b7, 7)] in
-    Stdlib.String.make 1 (Char.chr v) ^ ocaml_string_of r
+  let buf = Buffer.create 16 in
+  let rec go s = match s with
+    | EmptyString -> ()
+    | String (Ascii (b0, b1, b2, b3, b4, b5, b6, b7), r) ->
+      let v = List.fold_left (fun acc (b, k) -> if b then acc lor (1 lsl k) else acc) 0
+          [(b0, 0); (b1, 1); (b2, 2); (b3, 3); (b4, 4); (b5, 5); (b6, 6); (b7, 7)] in
+      Buffer.add_char buf (Char.chr v); go r in
+  go s; Buffer.contents buf
 
 let rec pos_of_int n = if n <= 1 then XH else if n land 1 = 0 then XO (pos_of_int (n lsr 1)) else XI (pos_of_int (n lsr 1))
 let z_of_int n = if n = 0 then Z0 else if n > 0 then Zpos (pos_of_int n) else Zneg (pos_of_int (- n))
 
+let rec int_of_pos p = match p with XH -> 1 | XO q -> 2 * int_of_pos q | XI q -> 2 * int_of_pos q + 1
+let int_of_z z = match z with Z0 -> 0 | Zpos p -> int_of_pos p | Zneg p -> - (int_of_pos p)
+
+let split_us s = Stdlib.String.split_on_char '\x1f' s
+let words_of rest = if rest = "\x00" then [] else List.map cs (split_us rest)
+
+let parse_tbl : (Stdlib.String.t, decl list option) Hashtbl.t = Hashtbl.create 16
+let file_tbl : (Stdlib.String.t, Stdlib.String.t) Hashtbl.t = Hashtbl.create 16
+let parse_conf (t : Model.string) = match Hashtbl.find_opt parse_tbl (ocaml_string_of t) with Some r -> r | None -> None
+let read_file (t : Model.string) = match Hashtbl.find_opt file_tbl (ocaml_string_of t) with Some r -> Some (cs r) | None -> None
+
+let decl_of (s : Stdlib.String.t) : decl =
+  match Stdlib.String.split_on_char ' ' s with
+  | "cv" :: [n] -> DCv (cs n)
+  | "bias" :: n :: l -> DBias (cs n, List.map cs l)
+  | _ -> failwith ("bad decl " ^ s)
+
+let show_state st =
+  Stdlib.String.concat " " (List.map ocaml_string_of st.st_cvs) ^ " | " ^
+  Stdlib.String.concat " " (List.map (fun (n, l) -> ocaml_string_of n ^ ":" ^ Stdlib.String.concat "," (List.map ocaml_string_of l)) st.st_biases)
+
+let show_outcome o = match o with
+  | Run (_, ((n, _), _), ex) -> Printf.sprintf "run %s %b" (ocaml_string_of n) ex
+  | ErrNoCommand -> "error nocommand"
+  | ErrMissingParams -> "error missingparams"
+  | ErrObjectNotFound -> "error notfound"
+  | ErrSyntax -> "error syntax"
+  | ErrTooFewArgs _ -> "error toofew"
+  | ErrTooManyArgs _ -> "error toomany"
+
 let () =
-  let tbl = ref [] and cvs = ref [] and bs = ref [] in
+  let tbl = ref [] and st = ref { st_cvs = []; st_biases = [] } in
   try
     while true do
       let line = input_line stdin in
-      if Stdlib.String.length line >= 2 then begin
-        let rest = Stdlib.String.sub line 2 (Stdlib.String.length line - 2) in
-        match line.[0] with
-        | 'T' ->
-          (match Stdlib.String.split_on_char ' ' rest with
-           | [n; a; b] -> tbl := !tbl @ [((cs n, z_of_int (int_of_string a)), z_of_int (int_of_string b))]; print_endline "ok"
-           | _ -> print_endline "?")
-        | 'N' ->
-          (match Stdlib.String.split_on_char ' ' rest with
-           | ["clear"] -> cvs := []; bs := []; print_endline "ok"
-           | ["cv"; n] -> cvs := cs n :: !cvs; print_endline "ok"
-           | ["bias"; n] -> bs := cs n :: !bs; print_endline "ok"
-           | _ -> print_endline "?")
-        | 'D' ->
-          let words = if rest = "\x00" then [] else List.map cs (Stdlib.String.split_on_char '\x1f' rest) in
-          (match dispatch !tbl !cvs !bs words with
-           | Run (_, ((n, _), _), ex) -> Printf.printf "run %s %b\n" (ocaml_string_of n) ex
-           | ErrNoCommand -> print_endline "error nocommand"
-           | ErrMissingParams -> print_endline "error missingparams"
-           | ErrObjectNotFound -> print_endline "error notfound"
-           | ErrSyntax -> print_endline "error syntax"
-           | ErrTooFewArgs _ -> print_endline "error toofew"
-           | ErrTooManyArgs _ -> print_endline "error toomany")
-        | _ -> print_endline "?"
-      end else print_endline "?"
+      let n = Stdlib.String.length line in
+      let rest = if n >= 2 then Stdlib.String.sub line 2 (n - 2) else "" in
+      if n = 0 then print_endline "?" else
+      match line.[0] with
+      | 'T' ->
+        (match Stdlib.String.split_on_char ' ' rest with
+         | [n; a; b] -> tbl := !tbl @ [((cs n, z_of_int (int_of_string a)), z_of_int (int_of_string b))]; print_endline "ok"
+         | _ -> print_endline "?")
+      | 'S' ->
+        (match Stdlib.String.split_on_char ' ' rest with
+         | ["clear"] -> st := { st_cvs = []; st_biases = [] }; print_endline "ok"
+         | ["cv"; n] -> st := { !st with st_cvs = !st.st_cvs @ [cs n] }; print_endline "ok"
+         | "bias" :: n :: l -> st := { !st with st_biases = !st.st_biases @ [(cs n, List.map cs l)] }; print_endline "ok"
+         | _ -> print_endline "?")
+      | 'P' ->
+        (match split_us rest with
+         | [t; "none"] -> Hashtbl.replace parse_tbl t None; print_endline "ok"
+         | t :: ds -> Hashtbl.replace parse_tbl t (Some (List.map decl_of (List.filter (fun d -> d <> "") ds))); print_endline "ok"
+         | _ -> print_endline "?")
+      | 'F' ->
+        (match split_us rest with
+         | [f; t] -> Hashtbl.replace file_tbl f t; print_endline "ok"
+         | _ -> print_endline "?")
+      | 'E' ->
+        let words = words_of rest in
+        let ((st', o), c) = exec !tbl parse_conf read_file !st words in
+        st := st';
+        Printf.printf "%s %s | %s\n" (show_outcome o) (match c with BOk -> "ok" | BErr -> "err" | BUnknown -> "unk") (show_state st')
+      | 'C' ->
+        st := do_event !tbl parse_conf read_file !st (EConfig (cs rest));
+        Printf.printf "config | %s\n" (show_state !st)
+      | 'X' ->
+        st := do_event !tbl parse_conf read_file !st EStep;
+        Printf.printf "step | %s\n" (show_state !st)
+      | 'W' -> Printf.printf "wf table=%b state=%b\n" (table_wf !tbl) (state_wf !st)
+      | 'K' ->
+        (match lookup !tbl (cs rest) with
+         | None -> print_endline "noentry"
+         | Some e ->
+           (match entry_class e with
+            | None -> print_endline "noclass"
+            | Some (k, sub) ->
+              let kind = (match k with OModule -> "module" | OColvar -> "colvar" | OBias -> "bias") in
+              let w = witness_words k sub (cs "\x01NAME") e in
+              Printf.printf "class %s %s pseudo=%b witness=%s\n" kind (ocaml_string_of sub) (is_pseudo e)
+                (Stdlib.String.concat "\x1f" (List.map ocaml_string_of w))))
+      | 'G' ->
+        let parse_entry e = match Stdlib.String.split_on_char ':' e with
+          | [i; x; y; z] -> (z_of_int (int_of_string i), (float_of_string x, float_of_string y, float_of_string z))
+          | _ -> failwith ("bad entry " ^ e) in
+        let grps = List.map (fun g -> List.map parse_entry (List.filter (fun w -> w <> "") (Stdlib.String.split_on_char ' ' g)))
+            (Stdlib.String.split_on_char '|' rest) in
+        let ids = build_ids (List.map (List.map fst) grps) in
+        let add (a, b, c) (d, e, f) = (a +. d, b +. e, c +. f) in
+        let res = collect_groups add ids (List.map (fun _ -> (0., 0., 0.)) ids) grps in
+        Printf.printf "ids %s | %s increasing=%b\n" (Stdlib.String.concat " " (List.map (fun i -> string_of_int (int_of_z i)) ids))
+          (Stdlib.String.concat " " (List.map (fun (x, y, z) -> Printf.sprintf "%h %h %h" x y z) res)) (increasing ids)
+      | _ -> print_endline "?"
     done
   with End_of_file -> ()
